@@ -383,9 +383,18 @@ func (k *Keeper) ApplyMessageWithConfig(ctx sdk.Context,
 		// take over the nonce management from evm:
 		// - reset sender's nonce to msg.Nonce() before calling evm.
 		// - increase sender's nonce by one no matter the result.
+		// - never move the nonce backwards: when the transaction batches several Ethereum
+		//   messages of this sender, the ante handler has already advanced the account sequence
+		//   past all of them, and resetting it to msg.Nonce()+1 would make the later messages
+		//   of the batch replayable.
+		nonceBefore := stateDB.GetNonce(sender.Address())
 		stateDB.SetNonce(sender.Address(), msg.Nonce())
 		ret, _, leftoverGas, vmErr = evm.Create(sender, msg.Data(), leftoverGas, msg.Value())
-		stateDB.SetNonce(sender.Address(), msg.Nonce()+1)
+		nonceAfter := msg.Nonce() + 1
+		if nonceBefore > nonceAfter {
+			nonceAfter = nonceBefore
+		}
+		stateDB.SetNonce(sender.Address(), nonceAfter)
 	} else {
 		ret, leftoverGas, vmErr = evm.Call(sender, *msg.To(), msg.Data(), leftoverGas, msg.Value())
 	}
